@@ -9,7 +9,7 @@ glom(t, (a, b)) == glom(glom(t, a), b) checked with glom itself.
 from collections import OrderedDict
 
 from .. import env
-from ..util import call
+from ..util import call, StepBudget
 from ..report import short
 from ..snapshot import snapshot
 from .. import automodel as am
@@ -250,6 +250,72 @@ def literal_defaults_and_arguments_are_per_evaluation(col):
                     stack.extend(v)
 
 
+class _CountingSource:
+    """an iterable target that counts what is pulled from it; optionally infinite or failing after `n` items"""
+    def __init__(self, items, then=None):
+        self.items, self.then, self.pulls = list(items), then, 0
+
+    def __iter__(self):
+        for x in self.items:
+            self.pulls += 1
+            yield x
+        if self.then == 'raise':
+            raise RuntimeError('source exhausted its budget')
+        while self.then == 'forever':
+            self.pulls += 1
+            yield 0
+
+
+_BUDGET = StepBudget(200000)
+
+
+def list_spec_is_lazy_and_call_parts_go_left_to_right(col):
+    """(1) "a list spec maps over the target's iteration ... STOP ends the list": nothing is pulled from the target beyond the
+    item that produced STOP - an iterator shared with a sibling entry keeps the rest, a source that fails or never ends after
+    that item does no harm.  (2) "Call ... each evaluated once, left to right": func, then args, then kwargs - observable
+    through the call log and through which of two failing parts surfaces"""
+    from glom import Call, Spec
+    stop_at = lambda k: (lambda x: STOP if x == k else x * 10)
+    for then in (None, 'raise', 'forever'):
+        src = _CountingSource([1, 2, 3, 4, 5], then)
+        got = _BUDGET.call(G, src, [stop_at(3)])      # (logical step budget: a walk that never ends is reported, not waited for)
+        col.case(('lazy-list', 'stop', then), True)
+        col.count('glom_evaluations')
+        if not got.ok or got.value != [10, 20] or src.pulls != 3:
+            col.violation('C03/list-spec-pulls-beyond-STOP', '[f] with STOP at the 3rd item over a source (%s afterwards): %r, %d items pulled (expected [10, 20], 3)'
+                          % (then or 'finite', got, src.pulls), None)
+    it = iter([1, 2, 3, 4, 5])
+    got = call(G, it, {'header': [stop_at(2)], 'body': list})
+    col.count('glom_evaluations')
+    if not got.ok or got.value != {'header': [10], 'body': [3, 4, 5]}:
+        col.violation('C03/list-spec-pulls-beyond-STOP', "{'header': [f STOP at 2], 'body': list} over one iterator: %r, expected header [10] and body [3, 4, 5]" % (got,), None)
+    # (2)
+    log = []
+
+    def part(name, value):
+        def f(t):
+            log.append(name)
+            return value
+        return f
+    collector = lambda *a, **kw: ('called', a, tuple(sorted(kw.items())))
+    spec = Call(Spec(part('func', collector)), args=(Spec(part('arg0', 0)), Spec(part('arg1', 1))), kwargs={'k': Spec(part('kw', 2))})
+    got = call(G, {}, spec)
+    col.case(('call-order',), True)
+    col.count('glom_evaluations')
+    if not got.ok or got.value != ('called', (0, 1), (('k', 2),)) or log != ['func', 'arg0', 'arg1', 'kw']:
+        col.violation('C03/call-parts-order', 'Call(func-spec, args, kwargs): %r, parts evaluated in order %s (expected func, arg0, arg1, kw)' % (got, log), None)
+
+    def boom(t):
+        raise ZeroDivisionError('argument part')
+    for desc, spec, want_cls in (('failing func and failing arg', Call(T['missing_func'], args=(Spec(boom),)), 'PathAccessError'),
+                                 ('failing arg and failing kwarg', Call(Spec(part('f', collector)), args=(T['missing_arg'],), kwargs={'k': Spec(boom)}), 'PathAccessError')):
+        got = call(G, {}, spec)
+        col.case(('call-error-precedence', desc), True)
+        col.count('glom_evaluations')
+        if got.ok or type(got.exc).__name__ != want_cls:
+            col.violation('C03/call-parts-order', '%s: %r, the leftmost failing part (a %s) must surface' % (desc, got, want_cls), None)
+
+
 def run(ctx):
     col, rng = ctx.col, ctx.rng
     col.require('glom_evaluations', 1000)
@@ -262,6 +328,7 @@ def run(ctx):
         if ctx.shard == 0:
             systematic(col, rng)
             literal_defaults_and_arguments_are_per_evaluation(col)
+            list_spec_is_lazy_and_call_parts_go_left_to_right(col)
         for i in range(ctx.n(30000, 120000)):
             one_case(col, rng, tracer)
     finally:
